@@ -13,7 +13,7 @@ TABLE = [
     ('C05', r'^glm_(bitCount|findLSB|findMSB|bitfieldReverse|bitfieldExtract|bitfieldInsert)_(i32|u32)_(s|v4)$|^glm_(uaddCarry|umulExtended|imulExtended)_(s|v4)$'),
     ('C07', r'^glm_(toFloat32|toFloat16|packHalf2x16|unpackHalf2x16|packHalf4x16)$'),
     ('C06', r'^glm_(pack|unpack)(Unorm4x8|Snorm2x16|Unorm1x16|Snorm1x8|Unorm3x10_1x2|F2x11_1x10|Unorm2x4|Int2x16)$'),
-    ('C11', r'_f32$'),
+    ('C11', r'^(?!glm_frexp).*_f32$'),   # frexp: libm output parameter is not modelled (uninterpreted call), nothing to compare
     ('C14', r'^glm_(nextFloat|prevFloat|floatDistance|equal_ulps|notEqual_ulps|equal_eps)_f32_s$|^glm_next_float_f32_s$|^glm_prev_float_f32_s$'),
     ('C01', r'^glm_(round|roundEven|trunc|fract|floor|ceil|sign|abs|mod|min|max|clamp|mix|step|smoothstep|isnan|isinf|sqrt|inversesqrt|pow|exp2|log2|sin|atan|fmin|fmax|fclamp)_f32_(v|vv|vs|vvv|vss|vvs|sv|ssv)_v(1|4)$'
             r'|^glm_op_(add|mul|div|mod|shl|shr|and)_(f32|i32|u32)_(vv|vs)_v4$|^glm_(lessThan|equal|notEqual)_(f32|i32)_v4$|^glm_(any|all|not)_v4$'),
@@ -55,7 +55,7 @@ CONFIGS = {
     'cxx98_xyzw_ctor': ['GLM_FORCE_CXX98', 'GLM_FORCE_XYZW_ONLY', 'GLM_FORCE_CTOR_INIT'],
     'inline_sizet_explicit': ['GLM_FORCE_INLINE', 'GLM_FORCE_SIZE_T_LENGTH', 'GLM_FORCE_EXPLICIT_CTOR'],
 }
-QUICK_CFG = ('cxx98', 'cxx11', 'inline', 'ctor_init', 'size_t_length', 'xyzw_only', 'compiler_unknown', 'pure')
+QUICK_CFG = ('cxx98', 'inline', 'size_t_length', 'xyzw_only', 'pure')
 base = P.build(d, 'flat', tag='cfg_default')
 builds = {}
 for cfg, defs in CONFIGS.items():
@@ -108,8 +108,8 @@ for cfg, b in builds.items():
                 req.append(('components_not_nan', ' && '.join('%s == %s' % (x, x) for x in fl)))
         P.contract(n, '%s shim %s under %s vs default configuration' % (modname, n, ' '.join(CONFIGS.get(cfg, ['-' + cfg]))),
                    requires=req, ensures=ens, build=b, rel=('cfg_default', [n]), unwind=max(sc.unwind, 12) if (sc is not None and sc.unwind < 60) else 12,
-                   uf_float=('fmul', 'fdiv', 'sqrt'), timeout=120, tier='quick' if cfg in QUICK_CFG or cfg == 'O0' else 'thorough',
-                   backends=('sat', 'z3') if re.search(r'mul|Extended|u32$', n) and 'f32' not in n else ('sat',))
+                   uf_float=('fmul', 'fdiv', 'fadd', 'fsub', 'sqrt', 'imul', 'iudiv', 'iurem', 'isdiv', 'isrem'), timeout=120, tier='quick' if (cfg in QUICK_CFG or cfg == 'O0') and not re.search(r'mul_m4x4_m4x4', n) else 'thorough',
+                   backends=('sat',))
 
 P.level_text = ('for every (configuration, operation) of the generated table the result computed by the code clang extracts under that '
                 'configuration is proved bit-identical, for all argument values in the operation\'s domain, to the result of the code extracted '
